@@ -225,4 +225,217 @@ theorem afb1dT_total (ax : Axis) (mode : Mode) (w0 w1 : List R) (x : List (Img R
   rw [e]
   exact mapM_id_map_some _
 
+
+/-! ## linearity of `afb1d` in every mode: a small calculus of linear list operators -/
+
+/-- `F` is linear on lists: it maps `a·x + b·y` to `a·F x + b·F y` for equally long `x, y`, and its output
+length depends on the input length only -/
+def Lin (F : List R → List R) : Prop :=
+  ∀ (a b : R) (x y : List R), x.length = y.length →
+    F (lincomb a b x y) = lincomb a b (F x) (F y) ∧ (F x).length = (F y).length
+
+theorem Lin.comp {F G : List R → List R} (hF : Lin F) (hG : Lin G) : Lin (fun x => F (G x)) := by
+  intro a b x y hxy
+  obtain ⟨g1, g2⟩ := hG a b x y hxy
+  obtain ⟨f1, f2⟩ := hF a b (G x) (G y) g2
+  exact ⟨by show F (G (lincomb a b x y)) = lincomb a b (F (G x)) (F (G y)); rw [g1, f1], f2⟩
+
+theorem list_ext_getN (u v : List R) (hl : u.length = v.length) (h : ∀ i < u.length, getN u i = getN v i) : u = v := by
+  apply List.ext_getElem hl
+  intro i h1 h2
+  have := h i h1
+  unfold getN at this
+  rw [List.getD_eq_getElem?_getD, List.getD_eq_getElem?_getD, List.getElem?_eq_getElem h1, List.getElem?_eq_getElem h2] at this
+  simpa using this
+
+theorem lin_corr (w : List R) (s d : Nat) : Lin (fun x : List R => corr w x s d) := by
+  intro a b x y hxy
+  exact ⟨corr_linear w x y a b s d hxy, by rw [corr_length, corr_length, hxy]⟩
+
+theorem lin_padIdx (idx : Int → Int → Int) (l r : Nat) : Lin (fun x : List R => padIdx idx x l r) := by
+  intro a b x y hxy
+  exact ⟨padIdx_linear idx x y a b l r hxy, by simp [padIdx, hxy]⟩
+
+theorem lin_zeroPad (l r : Nat) : Lin (fun x : List R => zeroPad x l r) := by
+  intro a b x y hxy
+  exact ⟨zeroPad_linear x y a b l r hxy, by simp [zeroPad, hxy]⟩
+
+theorem lin_take (n : Nat) : Lin (fun x : List R => x.take n) := by
+  intro a b x y hxy
+  refine ⟨?_, by simp [hxy]⟩
+  apply list_ext_getN
+  · simp [hxy]
+  · intro i hi
+    simp at hi
+    rw [getN_take _ _ _ hi.1, getN_lincomb a b x y hxy, getN_lincomb a b _ _ (by simp [hxy]), getN_take _ _ _ hi.1, getN_take _ _ _ hi.1]
+
+theorem getN_drop (x : List R) (n i : Nat) : getN (x.drop n) i = getN x (n + i) := by
+  unfold getN
+  rw [List.getD_eq_getElem?_getD, List.getD_eq_getElem?_getD, List.getElem?_drop]
+
+theorem lin_drop (n : Nat) : Lin (fun x : List R => x.drop n) := by
+  intro a b x y hxy
+  refine ⟨?_, by simp [hxy]⟩
+  apply list_ext_getN
+  · simp [hxy]
+  · intro i _
+    rw [getN_drop, getN_lincomb a b x y hxy, getN_lincomb a b _ _ (by simp [hxy]), getN_drop, getN_drop]
+
+theorem getN_append (u v : List R) (i : Nat) : getN (u ++ v) i = if i < u.length then getN u i else getN v (i - u.length) := by
+  unfold getN
+  rw [List.getD_eq_getElem?_getD, List.getElem?_append]
+  split <;> simp [List.getD_eq_getElem?_getD]
+
+/-- concatenation of two linear maps is linear -/
+theorem Lin.append {F G : List R → List R} (hF : Lin F) (hG : Lin G) : Lin (fun x => F x ++ G x) := by
+  intro a b x y hxy
+  obtain ⟨f1, f2⟩ := hF a b x y hxy
+  obtain ⟨g1, g2⟩ := hG a b x y hxy
+  refine ⟨?_, by simp [f2, g2]⟩
+  simp only [f1, g1]
+  apply list_ext_getN
+  · simp [f2, g2]
+  · intro i _
+    rw [getN_append, getN_lincomb a b (F x ++ G x) (F y ++ G y) (by simp [f2, g2]), getN_append, getN_append, lincomb_length, f2]
+    split
+    · rw [getN_lincomb a b _ _ f2]
+    · rw [getN_lincomb a b _ _ g2]
+
+/-- a length-dependent choice between linear maps is linear -/
+theorem Lin.ite_len {F G : List R → List R} (c : Nat → Prop) [DecidablePred c] (hF : Lin F) (hG : Lin G) :
+    Lin (fun x => if c x.length then F x else G x) := by
+  intro a b x y hxy
+  simp only [lincomb_length, hxy]
+  by_cases hc : c y.length
+  · simp only [hc, if_true]; exact hF a b x y hxy
+  · simp only [hc, if_false]; exact hG a b x y hxy
+
+/-- a linear map whose parameters depend on the input length -/
+theorem Lin.dep {P : Type} (p : Nat → P) (F : P → List R → List R) (hF : ∀ q, Lin (F q)) :
+    Lin (fun x => F (p x.length) x) := by
+  intro a b x y hxy
+  simp only [lincomb_length, hxy]
+  exact hF (p y.length) a b x y hxy
+
+theorem lin_id : Lin (fun x : List R => x) := fun a b x y hxy => ⟨rfl, hxy⟩
+
+theorem getN_foldAdd (x : List R) (p q i : Nat) (hi : i < x.length) :
+    getN (foldAdd x p q) i = if i < p then getN x i + getN x (q + i) else getN x i := by
+  unfold foldAdd; rw [getN_tab, if_pos hi]
+
+theorem lin_foldAdd (p q : Nat) : Lin (fun x : List R => foldAdd x p q) := by
+  intro a b x y hxy
+  have hl : ∀ z : List R, (foldAdd z p q).length = z.length := by intro z; simp [foldAdd]
+  refine ⟨?_, by rw [hl, hl, hxy]⟩
+  show foldAdd (lincomb a b x y) p q = lincomb a b (foldAdd x p q) (foldAdd y p q)
+  apply list_ext_getN
+  · rw [hl, lincomb_length, lincomb_length, hl]
+  · intro i hi
+    rw [hl, lincomb_length] at hi
+    have hly : (foldAdd x p q).length = (foldAdd y p q).length := by rw [hl, hl, hxy]
+    rw [getN_foldAdd _ _ _ _ (by rw [lincomb_length]; exact hi), getN_lincomb a b _ _ hly,
+      getN_foldAdd _ _ _ _ hi, getN_foldAdd _ _ _ _ (by omega), getN_lincomb a b x y hxy, getN_lincomb a b x y hxy]
+    split <;> ring
+
+
+theorem lin_const_ite (c : Prop) [Decidable c] {F G : List R → List R} (hF : Lin F) (hG : Lin G) :
+    Lin (fun x => if c then F x else G x) := by
+  by_cases hc : c
+  · simp only [hc, if_true]; exact hF
+  · simp only [hc, if_false]; exact hG
+
+/-- an operator of the shape "guard on the length, then a linear map" -/
+def GuardedLin (T : List R → Option (List R)) : Prop :=
+  ∃ (g : Nat → Bool) (F : List R → List R), Lin F ∧ ∀ x, T x = if g x.length then some (F x) else none
+
+theorem GuardedLin.linear {T : List R → Option (List R)} (hT : GuardedLin T) (a b : R) (x y : List R)
+    (hxy : x.length = y.length) :
+    T (lincomb a b x y) = (T x).bind fun u => (T y).bind fun v => some (lincomb a b u v) := by
+  obtain ⟨g, F, hF, hT⟩ := hT
+  rw [hT, hT x, hT y, lincomb_length, ← hxy]
+  by_cases hg : g x.length
+  · simp only [hg, if_true, Option.bind_some]
+    rw [(hF a b x y hxy).1]
+  · simp [hg]
+
+theorem lin_rollPy_neg (k : Nat) : Lin (fun x : List R => rollPy x (-(k:Int))) := by
+  unfold rollPy sliceFrom sliceTo
+  exact Lin.append
+    (Lin.dep (fun n => pyBound n (-(if (-(k:Int)) < 0 then (n:Int) + (-(k:Int)) else (-(k:Int))))) (fun q x => x.drop q) (fun q => lin_drop q))
+    (Lin.dep (fun n => pyBound n (-(if (-(k:Int)) < 0 then (n:Int) + (-(k:Int)) else (-(k:Int))))) (fun q x => x.take q) (fun q => lin_take q))
+
+theorem guard_key (P : Prop) [Decidable P] (v : List R) :
+    (if (!(decide P)) = true then some v else none) = (if P then none else some v) := by
+  by_cases h : P <;> simp [h]
+
+theorem guard_key2 (P Q : Prop) [Decidable P] [Decidable Q] (v : List R) :
+    (if ((!(decide P)) && decide Q) = true then some v else none) = (if P then none else if Q then some v else none) := by
+  by_cases h : P <;> by_cases h2 : Q <;> simp [h, h2]
+
+theorem afb1dOne_guardedLin (m : Mode) (w : List R) : GuardedLin (afb1dOne m w) := by
+  cases m with
+  | zero =>
+    refine ⟨fun n => !(decide (w.length < 2 ∨ n < 1)),
+      fun x => corr w (zeroPad (if (2 * (dwtCoeffLen x.length w.length - 1) + w.length - x.length) % 2 = 1 then zeroPad x 0 1 else x)
+        ((2 * (dwtCoeffLen x.length w.length - 1) + w.length - x.length)/2) ((2 * (dwtCoeffLen x.length w.length - 1) + w.length - x.length)/2)) 2 1, ?_, ?_⟩
+    · exact Lin.dep (fun n => 2 * (dwtCoeffLen n w.length - 1) + w.length - n)
+        (fun p x => corr w (zeroPad (if p % 2 = 1 then zeroPad x 0 1 else x) (p/2) (p/2)) 2 1)
+        (fun p => (lin_corr w 2 1).comp ((lin_zeroPad (p/2) (p/2)).comp (lin_const_ite _ (lin_zeroPad 0 1) lin_id)))
+    · intro x
+      rw [guard_key]; rfl
+  | symmetric =>
+    refine ⟨fun n => !(decide (w.length < 2 ∨ n < 1)),
+      fun x => corr w (padIdx symIdx x ((2 * (dwtCoeffLen x.length w.length - 1) + w.length - x.length)/2)
+        ((2 * (dwtCoeffLen x.length w.length - 1) + w.length - x.length + 1)/2)) 2 1, ?_, ?_⟩
+    · exact Lin.dep (fun n => 2 * (dwtCoeffLen n w.length - 1) + w.length - n)
+        (fun p x => corr w (padIdx symIdx x (p/2) ((p+1)/2)) 2 1)
+        (fun p => (lin_corr w 2 1).comp (lin_padIdx symIdx (p/2) ((p+1)/2)))
+    · intro x
+      rw [guard_key]; rfl
+  | periodic =>
+    refine ⟨fun n => !(decide (w.length < 2 ∨ n < 1)),
+      fun x => corr w (padIdx perIdx x ((2 * (dwtCoeffLen x.length w.length - 1) + w.length - x.length)/2)
+        ((2 * (dwtCoeffLen x.length w.length - 1) + w.length - x.length + 1)/2)) 2 1, ?_, ?_⟩
+    · exact Lin.dep (fun n => 2 * (dwtCoeffLen n w.length - 1) + w.length - n)
+        (fun p x => corr w (padIdx perIdx x (p/2) ((p+1)/2)) 2 1)
+        (fun p => (lin_corr w 2 1).comp (lin_padIdx perIdx (p/2) ((p+1)/2)))
+    · intro x
+      rw [guard_key]; rfl
+  | reflect =>
+    refine ⟨fun n => !(decide (w.length < 2 ∨ n < 1)) && decide ((2 * (dwtCoeffLen n w.length - 1) + w.length - n)/2 < n ∧ (2 * (dwtCoeffLen n w.length - 1) + w.length - n + 1)/2 < n),
+      fun x => corr w (padIdx reflIdx x ((2 * (dwtCoeffLen x.length w.length - 1) + w.length - x.length)/2)
+        ((2 * (dwtCoeffLen x.length w.length - 1) + w.length - x.length + 1)/2)) 2 1, ?_, ?_⟩
+    · exact Lin.dep (fun n => 2 * (dwtCoeffLen n w.length - 1) + w.length - n)
+        (fun p x => corr w (padIdx reflIdx x (p/2) ((p+1)/2)) 2 1)
+        (fun p => (lin_corr w 2 1).comp (lin_padIdx reflIdx (p/2) ((p+1)/2)))
+    · intro x
+      rw [guard_key2]; rfl
+  | periodization =>
+    let G : List R → List R := fun x1 =>
+      (foldAdd (corr w (zeroPad (rollPy x1 (-((w.length/2 : Nat) : Int))) (w.length-1) (w.length-1)) 2 1) (w.length/2) (x1.length/2)).take (x1.length/2)
+    let pre : List R → List R := fun x => if x.length % 2 = 1 then x ++ sliceFrom x (-1) else x
+    have hG : Lin G :=
+      Lin.dep (fun n => n / 2)
+        (fun N2 x1 => (foldAdd (corr w (zeroPad (rollPy x1 (-((w.length/2 : Nat) : Int))) (w.length-1) (w.length-1)) 2 1) (w.length/2) N2).take N2)
+        (fun N2 => (lin_take N2).comp ((lin_foldAdd (w.length/2) N2).comp ((lin_corr w 2 1).comp ((lin_zeroPad _ _).comp (lin_rollPy_neg _)))))
+    have hpre : Lin pre :=
+      Lin.ite_len (fun n => n % 2 = 1)
+        (Lin.append lin_id (by unfold sliceFrom; exact Lin.dep (fun n => pyBound n (-1)) (fun q x => x.drop q) (fun q => lin_drop q))) lin_id
+    refine ⟨fun n => !(decide (w.length < 2 ∨ n < 1)), fun x => G (pre x), hG.comp hpre, ?_⟩
+    intro x
+    rw [guard_key]; rfl
+  | _ =>
+    refine ⟨fun _ => false, fun x => x, lin_id, ?_⟩
+    intro x
+    unfold afb1dOne
+    by_cases hg : w.length < 2 ∨ x.length < 1 <;> simp [hg]
+
+/-- **`afb1d` is linear in every padding mode** (zero, symmetric, reflect, periodic, periodization), for every
+filter buffer, signal length and pair of scalars; whether it raises depends on the lengths only. -/
+theorem afb1dOne_linear (m : Mode) (w x y : List R) (a b : R) (hxy : x.length = y.length) :
+    afb1dOne m w (lincomb a b x y)
+      = (afb1dOne m w x).bind fun u => (afb1dOne m w y).bind fun v => some (lincomb a b u v) :=
+  (afb1dOne_guardedLin m w).linear a b x y hxy
+
+
 end WV.C07
